@@ -3,7 +3,7 @@ import vlib
 from pipes_common import PipeSpec
 from parmap_common import MapStreamSpec
 
-SPECS = {"stream-faults": (PipeSpec("stream", True), "harness", "runner"), "mapstream": (MapStreamSpec(), "harness_parmap", "runner-parmap")}
+SPECS = {"stream-faults": (PipeSpec("stream", True), "harness", "runner"), "mapstream": (MapStreamSpec(fault_bias=True), "harness_parmap", "runner-parmap")}
 
 PROP_FILES = ["C08"]
 
@@ -18,7 +18,7 @@ def run(ctx):
     # failures of a goroutine-backed stream (parallel.MapStream over a failing source / failing f): C14's scenario family
     okc, outc, exec_ = vlib.build_runner(module="harness_parmap", exe_name="runner-parmap")
     if okc:
-        vlib.seq_differential(ctx, MapStreamSpec(), exec_, proofs_ok, tag="mapstream", scale=0.3)
+        vlib.seq_differential(ctx, MapStreamSpec(fault_bias=True), exec_, proofs_ok, tag="mapstream", scale=0.6)
     else:
         ctx.violation("harness-build", "the harness does not build against the current tree: " + outc[-1500:], {"build_output": outc[-4000:]}, failing_input=False)
     vlib.merge_parts(ctx, "cases = random stream pipelines over scripted sources with transient and fatal errors at every position, failing callbacks (k-th call), "
